@@ -199,6 +199,7 @@ def rewrite_sop(src, log, consts=None):
         if n:
             log.append((name, n))
         s = s2
+    s = index_u256(s, log)
     s = re.sub(r'^(pub fn [^{]*?)\s*\{', r'\1\n{', s, count=1, flags=re.S)
     return s
 
@@ -306,6 +307,45 @@ def rewrite_while(src, log):
     if n:
         log.append(('brace', n))
     return s2
+
+def desugar_continue(t, log):
+    """R16 (on the tidy line form): inside a loop body, `if C { continue; }` followed by the rest R of the body
+    ->  `if !(C) { R }`   (Verus does not support `continue` in for-loops; the two forms are equivalent)"""
+    lines = t.split('\n')
+    i = 0
+    while i + 3 < len(lines):
+        if lines[i].startswith('if ') and lines[i + 1] == '{' and lines[i + 2] == 'continue;' and lines[i + 3] == '}' and (i + 4 >= len(lines) or lines[i + 4] != 'else'):
+            # the enclosing block ends at the first unmatched `}` after the if
+            depth = 0
+            j = i + 4
+            while j < len(lines):
+                if lines[j] == '{':
+                    depth += 1
+                elif lines[j] == '}' or lines[j] == '};':
+                    if depth == 0:
+                        break
+                    depth -= 1
+                j += 1
+            if j >= len(lines):
+                raise ValueError('R16: unmatched block')
+            cond = lines[i][3:]
+            lines[i:j] = ['if !(%s)' % cond, '{'] + lines[i + 4:j] + ['}']
+            log.append(('R16-continue', 1))
+        i += 1
+    return '\n'.join(lines)
+
+def index_u256(s, log):
+    """R3i: `x[i]` on a value of type U256 (Index<usize> for U256 is `self.0.0[i]`) -> `x.0.0[i]`; `FQ[i]` / `FR[i]` -> limb i of the constant"""
+    names = set(re.findall(r'\blet (?:mut )?(\w+) = U256\(', s)) | set(re.findall(r'\b(\w+): &?(?:mut )?U256\b', s)) | set(re.findall(r'\blet (?:mut )?(\w+): U256\b', s))
+    n = 0
+    for nm in sorted(names):
+        s, k = re.subn(r'(?<![\w.])%s\[' % re.escape(nm), nm + '.0.0[', s)
+        n += k
+    s, k = re.subn(r'(?<![\w.&*])(FQ|FR)\[(\w+)\]', r'\1_C[\2]', s)
+    n += k
+    if n:
+        log.append(('R3i', n))
+    return s
 
 def tidy(s):
     """canonical line form of extracted text: whitespace-normalised, every brace on its own line (outside string literals),
